@@ -857,6 +857,8 @@ class Interp:
             parts = [p for p in parts if p is not True]
             return True if not parts else z3.And(*parts)
         if isinstance(a, SymObj) or isinstance(b, SymObj):
+            if getattr(a, "concrete_identity", False) and getattr(b, "concrete_identity", False):
+                return bool(a == b)  # identity unless the token class defines a structural __eq__ (e.g. signatures)
             return a is b
         try:
             return a == b
